@@ -228,6 +228,12 @@ impl Generics {
                             "Future" => {
                                 g.map.insert(n.clone(), Ty::Fut(Box::new(Ty::Val)));
                             }
+                            "Stream" => {
+                                // `S: Stream` (items) / `S: Stream<Item = Result<Item, Err>>`: what `poll_next` answers
+                                let txt = show_full(&tb.path);
+                                let item = if txt.contains("Result") { Ty::Res(Box::new(Ty::Val), Box::new(Ty::Err)) } else { Ty::Val };
+                                g.map.insert(n.clone(), Ty::Fut(Box::new(Ty::Opt(Box::new(item)))));
+                            }
                             "Extend" | "IntoIterator" | "Iterator" => {
                                 g.map.insert(n.clone(), Ty::List(Box::new(Ty::Val)));
                             }
@@ -701,7 +707,7 @@ impl<'a> Fx<'a> {
                     ("next", 0) if matches!(rt, Ty::Fut(_)) => Some(rt),
                     ("load", 1) | ("get", 0) if matches!(rt, Ty::Int | Ty::Bool) => Some(rt),
                     ("unbounded_send", 1) if rt == Ty::Chan => Some(Ty::Res(Box::new(Ty::Unit), Box::new(Ty::Unit))),
-                    ("poll", 1) | ("poll_unpin", 1) => match rt {
+                    ("poll", 1) | ("poll_unpin", 1) | ("poll_next", 1) | ("poll_next_unpin", 1) => match rt {
                         Ty::Fut(o) => Some(Ty::Poll(o)),
                         _ => None,
                     },
@@ -1321,6 +1327,13 @@ impl<'a> Fx<'a> {
                 self.emit("out := r.2");
                 Ok(())
             }
+            Expr::Break(b) if b.label.is_none() && b.expr.is_some() && self.ret_mode.is_some() && self.loop_state.is_some() => {
+                // `break Poll::Ready(..)` out of the `loop` that is the function's result
+                let v = self.expr(b.expr.as_ref().unwrap())?;
+                let st = self.loop_state.clone().unwrap();
+                self.emit(format!("return ({}, true)", st.replace("RET", &format!("(some {})", v))));
+                Ok(())
+            }
             Expr::Break(b) => {
                 if b.label.is_some() || b.expr.is_some() {
                     return bail("labelled break / break with a value");
@@ -1640,6 +1653,10 @@ impl<'a> Fx<'a> {
             }
             Expr::Block(b) => self.pure_block(&b.block),
             Expr::Range(r) if r.start.is_none() && r.end.is_none() => Ok("Rs.full".into()),
+            Expr::Struct(st) if last_seg(&st.path).ends_with("ObserverFuture") => {
+                // the driver future of from_stream / from_stream_result: the task handed to the scheduler
+                Ok(format!("(Rs.Task.mk \"{}\" [])", last_seg(&st.path)))
+            }
             Expr::Struct(st) if last_seg(&st.path) == "KeyObservable" => {
                 // the announcement of a group: its key and its subject
                 let mut k = None;
@@ -1913,6 +1930,14 @@ impl<'a> Fx<'a> {
                     }
                     return Ok(format!("(Rs.Task.mk \"{}\" [{}])", fname, vals.join(", ")));
                 }
+                ("new", 3) if full.len() == 2 && full[0] == "FutureTask" => {
+                    // a task that awaits the future and then runs `f(output, observer)`
+                    let fname = match args[1] {
+                        Expr::Path(fp) => last_seg(&fp.path),
+                        _ => return bail("task function"),
+                    };
+                    return Ok(format!("(Rs.Task.mk \"future:{}\" [])", fname));
+                }
                 ("with_first_delay", 4) | ("new", 3) if full.len() == 2 && full[0] == "RepeatTask" => {
                     // a repeating task: its tick function by name, the delay of the first run and the period
                     let k = args.len();
@@ -2086,7 +2111,7 @@ impl<'a> Fx<'a> {
         }
         // an opaque future is polled: the oracle answers
         if let Some(Ty::Fut(_)) = &rt {
-            if matches!(name.as_str(), "poll" | "poll_unpin") && nargs == 1 {
+            if matches!(name.as_str(), "poll" | "poll_unpin" | "poll_next" | "poll_next_unpin") && nargs == 1 {
                 let t = self.fresh("t");
                 self.emit(format!("let {} := futs pc", t));
                 self.emit("pc := pc + 1");
@@ -2750,6 +2775,9 @@ pub fn parse_spec(spec: &str) -> Ty {
         "callback" => Ty::Callback,
         "sub" => Ty::Sub,
         "unit" => Ty::Unit,
+        "stream" => Ty::Fut(Box::new(Ty::Opt(Box::new(Ty::Val)))),
+        "trystream" => Ty::Fut(Box::new(Ty::Opt(Box::new(Ty::Res(Box::new(Ty::Val), Box::new(Ty::Err)))))),
+        "future" => Ty::Fut(Box::new(Ty::Val)),
         "grp" => Ty::Grp,
         "inner" => Ty::Inner,
         "lazy" => Ty::Lazy,
@@ -3097,7 +3125,7 @@ pub fn translate_poll_fn(items: &[Item], name: &str, ctx: &Ctx, hints: &HashMap<
         payload_of: HashMap::new(),
         extra: vec![],
         fname: pname.clone(),
-        dyn_down: false,
+        dyn_down: true,
         loop_state: None,
         ret_mode: Some(rt.clone()),
     };
@@ -3153,6 +3181,7 @@ pub fn translate_poll_fn(items: &[Item], name: &str, ctx: &Ctx, hints: &HashMap<
     }
     tail_block(&mut fx, &f.block).map_err(|e| format!("{}::{}: {}", name, pname, e))?;
     let has_loop = show_full(&f.block).contains("loop");
+    let asks_down = show_full(&f.block).contains("is_finished");
     let mut d = String::new();
     for x in &fx.extra {
         d += x;
@@ -3164,7 +3193,7 @@ pub fn translate_poll_fn(items: &[Item], name: &str, ctx: &Ctx, hints: &HashMap<
         pname,
         name,
         fut_out.lean(),
-        if has_loop { " (fuel : Nat)" } else { "" },
+        format!("{}{}", if asks_down { " (downF : Rs.Out → Bool)" } else { "" }, if has_loop { " (fuel : Nat)" } else { "" }),
         name,
         rt
     )
